@@ -496,8 +496,52 @@ class PendGen(histgen.HistGen):
     self.stats['trig'] += 1
     return acts or None
 
+  def rename_gone_bundle(self, e):
+    """One bundle with a rename and a row that disappears after one of its formula cells was recalculated in the bundle:
+    a source table of a summary table is renamed (or one of its columns) and a row is removed / moved to another group;
+    or a data column is turned into a formula, read in mid-bundle (CopyFromColumn), renamed, and a row is removed."""
+    r = self.r
+    meta = histgen.Meta(e)
+    tabs = [t for t in meta.user_tables() if meta.rows(t['tableId'])]
+    if not tabs:
+      return None
+    srcs = {t['summarySourceTable'] for t in meta.tables.values() if t['summarySourceTable']}
+    with_sum = [t for t in tabs if t['id'] in srcs]
+    t = r.choice(with_sum) if with_sum and r.random() < 0.6 else r.choice(tabs)
+    tid = t['tableId']
+    rows = meta.rows(tid)
+    data = [c for c in meta.data_cols(t['id']) if not c.get('formula')]
+    acts = []
+    if t['id'] not in srcs and len(data) >= 2:
+      d, x = r.sample(data, 2)
+      acts += [['ModifyColumn', tid, d['colId'], {'isFormula': True, 'formula': 'rec.id + 1'}],
+               ['CopyFromColumn', tid, d['colId'], x['colId'], None]]
+      data = [d]
+    used_t = {x['tableId'] for x in meta.tables.values()}
+    new_t = next((n for n in ('Zz%d' % r.randint(1, 99) for _ in range(5)) if n not in used_t), None)
+    for _ in range(r.randint(1, 2)):
+      if r.random() < 0.5 and data:
+        c = r.choice(data)
+        new = 'q%d' % r.randint(1, 99)
+        acts.append(['RenameColumn', tid, c['colId'], new])
+        data = [x for x in data if x is not c]
+      elif new_t:
+        acts.append(['RenameTable', tid, new_t])
+        tid, new_t = new_t, None
+    if r.random() < 0.7 or not data:
+      acts.append(['BulkRemoveRecord', tid, r.sample(rows, min(len(rows), r.randint(1, 2)))])
+    else:
+      c = r.choice(data)
+      acts.append(['UpdateRecord', tid, r.choice(rows), {c['colId']: self.value(c['type'], meta)}])
+    self.stats['rename-gone'] += 1
+    return acts
+
   def bundle(self, e, max_len=3):
     r = self.r
+    if self.directed and r.random() < 0.08:
+      b = self.rename_gone_bundle(e)
+      if b:
+        return b
     if r.random() < self.trig:
       b = self.trig_bundle(e)
       if b:
@@ -705,11 +749,60 @@ def focused_search(kinds, prop, limit=4, light=False):
   return found
 
 
+RG_PLAIN = [
+  [['AddTable', 'T', [{'id': 'A', 'type': 'Int', 'isFormula': False}, {'id': 'D', 'type': 'Text', 'isFormula': False},
+                      {'id': 'X', 'type': 'Text', 'isFormula': False}]]],
+  [['BulkAddRecord', 'T', [None, None, None], {'A': [1, 2, 3], 'D': ['x', 'y', '5']}]],
+]
+RG_SUMMARY = [
+  [['AddTable', 'T', [{'id': 'A', 'type': 'Text', 'isFormula': False}, {'id': 'N', 'type': 'Int', 'isFormula': False}]]],
+  [['BulkAddRecord', 'T', [None, None, None], {'A': ['a', 'b', 'b'], 'N': [1, 2, 3]}]],
+  [['CreateViewSection', 1, 0, 'record', [2], None]],     # summary table T_summary_A (group by A) with the SUM column N
+]
+_TOF = ['ModifyColumn', 'T', 'D', {'isFormula': True, 'formula': '$A+1'}]
+_CPY = ['CopyFromColumn', 'T', 'D', 'X', None]            # forces D to be computed in mid-bundle
+
+
+def rename_gone_cases():
+  """ONE bundle with a rename (column / table; also the indirect renames of a summary table and its columns) and a row
+  that disappears after one of its formula cells was recalculated earlier in the bundle: the restore of that cell is
+  inserted at the FRONT of the undo list and must name the ORIGINAL (pre-rename) column and table."""
+  return [
+    ('to-formula, copy, RenameColumn, RemoveRecord', RG_PLAIN, [_TOF, _CPY, ['RenameColumn', 'T', 'D', 'E'], ['RemoveRecord', 'T', 2]]),
+    ('to-formula, copy, RenameTable, RemoveRecord', RG_PLAIN, [_TOF, _CPY, ['RenameTable', 'T', 'U'], ['RemoveRecord', 'U', 2]]),
+    ('to-formula, copy, RenameColumn, RenameTable, BulkRemoveRecord', RG_PLAIN,
+     [_TOF, _CPY, ['RenameColumn', 'T', 'D', 'E'], ['RenameTable', 'T', 'U'], ['BulkRemoveRecord', 'U', [1, 2]]]),
+    ('source column renamed, last row of a summary group removed', RG_SUMMARY, [['RenameColumn', 'T', 'N', 'M'], ['RemoveRecord', 'T', 1]]),
+    ('source table renamed, only row of a summary group moved', RG_SUMMARY, [['RenameTable', 'T', 'U'], ['UpdateRecord', 'U', 1, {'A': 'b'}]]),
+    ('group-by column renamed, last row of a summary group removed', RG_SUMMARY, [['RenameColumn', 'T', 'A', 'B'], ['RemoveRecord', 'T', 1]]),
+    ('control without rename', RG_PLAIN, [_TOF, _CPY, ['RemoveRecord', 'T', 2]]),
+  ]
+
+
+def rename_gone_search(prop, found, limit):
+  for name, hist, b in rename_gone_cases():
+    try:
+      issues, _ = check_bundle(build(hist), copy.deepcopy(b))
+    except Exception:
+      continue
+    for p_, kind, what in issues:
+      if p_ == prop and not any(f[0] == kind for f in found):
+        found.append((kind, '[template: rename + row gone after recalculation; %s] %s' % (name, what),
+                      {'history': hist, 'bundle': b, 'kind': kind}))
+        if len(found) >= limit:
+          return found
+  return found
+
+
 def template_search(prop, limit=6):
   """Fixed templates, run on every check (a few seconds): counter trigger formulas read by a formula column, and -- without
   any preceding edit -- ReplaceTableData with overlapping / partial / disjoint ids and AddColumn-with-formula / update /
   (rename) / RemoveColumn bundles on the small documents of focused_search."""
-  return focused_search({'ReplaceTableData', 'RemoveColumn'}, prop, limit=limit, light=True)
+  found = rename_gone_search(prop, [], limit)
+  for f in focused_search({'ReplaceTableData', 'RemoveColumn'}, prop, limit=limit, light=True):
+    if len(found) < limit and not any(g[0] == f[0] for g in found):
+      found.append(f)
+  return found
 
 
 def own_hash():
@@ -859,6 +952,21 @@ def _traced_run(ctx, n_hist, nb):
                                                 if only_formula_cells_differ(e, start_snapshot, end) else 'history-undo-differs',
                          'what': '; '.join(strict_diff(start_snapshot, end)),
                          'replay': {'history': copy.deepcopy(history), 'whole_history': True}})
+    # fixed template bundles (rename + row gone after a recalculation, ...): their traces join the tie
+    for name, hist, b in rename_gone_cases():
+      try:
+        e = build(hist)
+        tr = k1trace.record_bundle(e, copy.deepcopy(b))
+        tr.pop('out')
+        terms.append(k1trace.trace_term(I, tr))
+        metas.append({'bundle': b, 'history': copy.deepcopy(hist), 'kinds': sorted({evt[0] if evt[0] != 'doc' else evt[1][0] for evt in tr['events']}),
+                      'pending': pending_structure(tr['events']), 'n_events': len(tr['events']), 'template': name,
+                      'shape': [evt[0] if evt[0] != 'doc' else evt[1][0] for evt in tr['events']]})
+        stats['template-traces'] += 1
+      except k1trace.Unmodelled as u:
+        stats['outside-value-model:' + str(u)[:40]] += 1
+      except Exception:
+        stats['template-bundle-failed'] += 1
   t_rec = time.time() - t0
   codes = eval_codes(ctx, I, terms)
   for iss in issues:
